@@ -273,6 +273,7 @@ func TestC10NeverWedges(t *testing.T) {
 				// cancelled the loser, or ran into its own time limit
 				script = append(script, sim.DialOutcome{Kind: sim.DialErr, Err: rapid.SampledFrom([]error{
 					fmt.Errorf("dial backup address: %w", context.Canceled),
+					context.Canceled, // (its own context, not the client's)
 					fmt.Errorf("dial: %w", context.DeadlineExceeded),
 					context.DeadlineExceeded,
 				}).Draw(rt, "dialerError")})
